@@ -698,6 +698,11 @@ impl Oracle for C03 {
         if let Some(Ok(b)) = real::build_via_builder(n.model) {
             scratch.push(("builder", b));
         }
+        if self.nodes % 5 == 0 {
+            if let Some(Ok(b)) = real::build_via_dirty_builder(n.model, _rng) {
+                scratch.push(("dirty-builder", b));
+            }
+        }
         for (route, sb) in scratch {
             c.count(&format!("scratch-comparisons-{route}"));
             let mut diffs: Vec<&str> = Vec::new();
@@ -911,6 +916,19 @@ impl Oracle for C04 {
                     format!("{fen}: moved/parsed hash {h:#x}, builder hash {:#x}", sb.zobrist()),
                     n.replay(),
                 );
+            }
+        }
+        if self.nodes % 3 == 0 {
+            if let Some(Ok(sb)) = real::build_via_dirty_builder(n.model, rng) {
+                c.count("dirty-builder-hash-comparisons");
+                if sb.zobrist() != h || sb != *n.real {
+                    c.violation(
+                        "builder-hash-differs",
+                        "dirty-builder-history",
+                        format!("{fen}: a builder history with rejected / undone placements gives hash {:#x} (eq = {}), the position hashes {h:#x}", sb.zobrist(), sb == *n.real),
+                        n.replay(),
+                    );
+                }
             }
         }
         if self.nodes % 4 == 0 {
@@ -1175,6 +1193,25 @@ impl Oracle for C05 {
                             format!("{want:?}: builder and parser differ in {d}"),
                             n.replay(),
                         );
+                    }
+                }
+                if self.nodes % 3 == 0 {
+                    match real::build_via_dirty_builder(n.model, rng) {
+                        Some(Ok(bb)) => {
+                            c.count("dirty-builder-comparisons");
+                            if let Some(d) = equal_boards(&bb, &b) {
+                                c.violation(
+                                    "constructors-disagree",
+                                    &format!("dirty-builder-vs-parser:{d}"),
+                                    format!("{want:?}: a builder history with rejected / undone placements and the parser differ in {d}"),
+                                    n.replay(),
+                                );
+                            }
+                        }
+                        Some(Err(e)) if reachable_family(n.family) && n.model.c06_ok().is_ok() => {
+                            c.count(&format!("dirty-builder-rejected:{e}"));
+                        }
+                        _ => {}
                     }
                 }
             }
